@@ -655,5 +655,8 @@ func (ex *Exec) recordViolation(kind, id, msg, site string, extra *Term) {
 		kinds[in.Name] = in.Kind
 	}
 	v := Violation{Harness: ex.harness, Assertion: id, Kind: kind, Msg: msg, Site: site, Model: m, Decisions: append([]int(nil), ex.trace...), Stack: ex.stackStrings(), Split: ex.splits, Kinds: kinds}
+	if ex.threads != nil && kind != "race" {
+		v.Sched = append([]int(nil), ex.threads.schedule...)
+	}
 	ex.violations = append(ex.violations, v)
 }
